@@ -148,7 +148,7 @@ pub fn supervise(id: &str, tier_arg: &str) -> ExitCode {
                     match ch.try_wait() {
                         Ok(Some(st)) => break !matches!(st.code(), Some(0) | Some(1)),
                         Ok(None) => {
-                            if t0.elapsed() > Duration::from_secs(180) {
+                            if t0.elapsed() > Duration::from_secs(1800) {
                                 let _ = ch.kill();
                                 let _ = ch.wait();
                                 break true;
@@ -948,8 +948,8 @@ fn worker_c11(tier: &str, seed: u64) -> ExitCode {
     let rule = "one evaluation = one execution of a scenario's pruning suffix under one fault plan. A scenario = seeded pool + \
                 fault-free prefix history (0-3 steps, populates caches) + suffix of 1-3 pruning steps. Per scenario: the fault-free \
                 baseline, EVERY (LP call position of the baseline x fault kind of the 12-entry menu) as a single-fault plan \
-                (exhaustive for that scenario; the quick tier restricts scenarios with more than 48 calls to 48 positions and counts \
-                them under probes), every pair of positions for <= 8 calls (quick, kinds Error/Unbounded/far-off) or <= 12 calls \
+                (exhaustive for that scenario; scenarios with more than 48 (quick) / 160 (thorough) calls are restricted to that many positions and counted \
+                under probes), every pair of positions for <= 8 calls (quick, kinds Error/Unbounded/far-off) or <= 12 calls \
                 (thorough, whole menu), plus seeded multi-fault plans. A third of the scenarios answer the un-faulted calls with a \
                 different correct witness instead of the backend's own. distinct_nontrivial = distinct scenarios (hash of constructor kinds, operation sequence, number of LP calls) \
                 whose suffix makes at least one LP call.";
